@@ -1887,7 +1887,8 @@ class ConstraintSignature(BaseSignature):
         return (other is not None and
                 self.name == other.name and
                 self.type is other.type and
-                dict.__eq__(self.attrs, other.attrs))
+                (_get_stored_form(self.attrs) ==
+                 _get_stored_form(other.attrs)))
 
     def __hash__(self):
         """Return a hash of the signature.
@@ -2119,9 +2120,12 @@ class IndexSignature(BaseSignature):
                 ((not self.name and not other.name) or
                  self.name == other.name) and
                 ((not self.expressions and not other.expressions) or
-                 self.expressions == other.expressions) and
-                self.fields == other.fields and
-                dict.__eq__(self.attrs or {}, other.attrs or {}))
+                 (_get_stored_form(self.expressions) ==
+                  _get_stored_form(other.expressions))) and
+                (_get_stored_form(self.fields) ==
+                 _get_stored_form(other.fields)) and
+                (_get_stored_form(self.attrs or {}) ==
+                 _get_stored_form(other.attrs or {})))
 
     def __hash__(self):
         """Return a hash of the signature.
@@ -2167,7 +2171,7 @@ class FieldSignature(BaseSignature):
             'null': False,
             'db_index': False,
             'db_column': None,
-            'db_table_comment': global_settings.DEFAULT_TABLESPACE,
+            'db_tablespace': global_settings.DEFAULT_TABLESPACE,
         },
         models.DecimalField: {
             'max_digits': None,
@@ -2593,6 +2597,40 @@ class FieldSignature(BaseSignature):
                 ' field_attrs=%r, related_model=%r)>'
                 % (self.field_name, self.field_type, self.field_attrs,
                    self.related_model))
+
+
+def _get_stored_form(value):
+    """Return the form a value takes once stored in a signature.
+
+    Signatures are stored as JSON, which can't tell a tuple from a list.
+    A signature loaded from the database therefore holds lists (directly, or
+    nested in values such as the lookups of a ``Q``) where a signature built
+    from a model may hold tuples. Values are compared by the form in which
+    they're stored, so that only their contents matter.
+
+    Args:
+        value (object):
+            The value to normalize.
+
+    Returns:
+        object:
+        The serialized value, with all tuples converted to lists.
+    """
+    def _normalize(value):
+        if isinstance(value, (list, tuple)):
+            return [
+                _normalize(_item)
+                for _item in value
+            ]
+        elif isinstance(value, dict):
+            return dict(
+                (_key, _normalize(_value))
+                for _key, _value in six.iteritems(value)
+            )
+
+        return value
+
+    return _normalize(serialize_to_signature(value))
 
 
 def validate_sig_version(sig_version):
